@@ -17,26 +17,50 @@ from ..ref.trees import NULL, RefTS
 
 ID = "C08"
 LEVEL = "exploration"
-RULE = ("parts: gen = general_stat/sample_count_stat (2 weightings x 6 summary functions x mode x "
-        "polarised x span_normalise x every window list on the half-grid + 'trees'/'sites'/None) on "
-        "every universe member with >=2 samples (site mode: x every site/mutation placement in the "
-        "stated alphabet) + window additivity for every refinement pair; named = every named "
-        "statistic x sample-set lists x all index tuples x mode x windows x span_normalise; sched = "
-        "divergence_matrix / genealogical_nearest_neighbours with num_threads=k under every "
-        "completion order; ded = divergence_matrix, GNN, mean_descendants, pair_coalescence_counts, "
-        "LdCalculator.r2; dist = kc_distance / rf_distance on all pairs.  One evaluation = one call "
-        "of the real method compared with the reference value; non-trivial = the reference value has "
-        "a non-zero defined entry (sched: >= 2 tasks were submitted)")
+RULE = ("parts (shard plan in bounds()): gen = general_stat and sample_count_stat, 2 weightings "
+        "(general weights incl. negative and fractional; two overlapping sample sets) x 6 summary "
+        "functions (strict quadratic, asymmetric product, cubic; non-strict identity-on-count, product, "
+        "1+x with f(0)!=0) x mode x polarised x span_normalise x every window list on the half-grid "
+        "containing 0 and L + 'trees' / 'sites' / None, on every universe member with >= 2 samples "
+        "(site mode: x every site/mutation placement of the stated scheme), + window additivity for "
+        "every refinement pair of window lists; named = diversity, segregating_sites, Y1, Tajimas_D, "
+        "divergence, Y2, f2, Y3, f3, f4, Fst, genetic_relatedness (polarised x centre x proportion), "
+        "genetic_relatedness_weighted, genetic_relatedness_vector, allele_frequency_spectrum (site / "
+        "branch, polarised / folded, joint) x sample-set lists x all index tuples x mode x windows x "
+        "span_normalise + dimension-dropping forms; sched = divergence_matrix and "
+        "genealogical_nearest_neighbours with num_threads=1..k under every completion order of the "
+        "submitted tasks (deterministic executor) + free-running real threads; ded = "
+        "divergence_matrix (incl. partial windows), genetic_relatedness_matrix (branch), GNN, "
+        "mean_descendants, pair_coalescence_counts, LdCalculator r2; dist = TreeSequence/Tree "
+        "kc_distance and rf_distance on all ordered pairs of KC-valid members with equal sample flags. "
+        "One evaluation = one call of the real method compared with the reference value; non-trivial = "
+        "the reference value has a non-zero defined entry (sched: >= 2 tasks were submitted; dist: the "
+        "reference distance is > 0)")
 ASSUMPTIONS = [
-    "undefined reference values (0/0 in a documented formula) are not compared (docs: 'you should "
-    "not rely on whether 0 or nan is returned')",
-    "site mode, f(0) != 0: an allele listed at a site but carried by no sample may or may not count",
-    "joint folded AFS: only the orbit sums {c, n-c} and 'lower half' placement are checked, ties free",
-    "tasks are executed one at a time in every order; interleavings inside a GIL-released C call "
-    "are not controlled (tasks share only the read-only tree sequence)",
+    "reference model mc/ref/stats.py: summary functions evaluated exactly (Fractions) per node / "
+    "allele; the linear window accounting is done on their float images; tolerance 1e-9 x max(1, "
+    "|expected|) (Tajimas_D 1e-6; thread comparisons 1e-12)",
+    "a summary-function output whose documented formula divides by zero for the given sample-set "
+    "sizes is not compared at all (docs/stats.md: 'you should not rely on whether 0 or nan is "
+    "returned'); likewise ratios (Fst, Tajimas_D, proportion=True) with a zero denominator",
+    "site mode with f(0) != 0: an allele listed at a site but carried by no sample may or may not "
+    "count (either reading accepted)",
+    "joint folded AFS: the orbit sums {c, n-c} and placement in the half with the smaller total are "
+    "checked; ties are free ('lower triangular in a similar way')",
+    "divergence_matrix has no docstring: oracle = divergence() of all pairs with the diagonal = "
+    "diversity, a one-element set's diagonal may be 0 or nan; windows not spanning [0, L] are accepted "
+    "by the implementation and are checked against the same definition (key suffix :partial_windows)",
+    "mean_descendants: the denominator may be the span over which the node is ancestral to any "
+    "reference node (implementation) or to any sample (docstring wording); either accepted",
     "pair_coalescence_counts: a pair in which one sample is an ancestor of the other may or may not "
     "count as coalescing in the ancestor (either reading accepted per call)",
-    "comparison tolerance 1e-9 x max(1, |expected|); Tajimas_D 1e-6",
+    "kc: Tree.kc_distance is compared with the Kendall-Colijn vectors only when no sample is an "
+    "ancestor of another sample; rf_distance only on trees without sample-less subtrees",
+    "schedules: tasks are executed one at a time in every order; interleavings inside a GIL-released "
+    "C call are not controlled (tasks share only the read-only tree sequence); no TSan pass",
+    "genetic_relatedness_vector supports only mode='branch' (site/node raise UNSUPPORTED_STAT_MODE "
+    "although the docstring default is 'site'): only branch mode is evaluated",
+    "trait_covariance / trait_correlation / trait_linear_model are not covered",
 ]
 TOL = 1e-9
 SHARD_TIMEOUT = 3000
@@ -950,6 +974,33 @@ def check_dedicated(ts, rts, acc, case, full, site_only=False, ld_only=False):
     if site_only:
         check_ld(ts, rts, acc, case)
         return
+    # ---- genetic_relatedness_matrix, branch mode: "the value obtained is the same as that from
+    # genetic_relatedness, using the options centre=True and proportion=False" (polarised default)
+    for SS in lists:
+        n = [len(A) for A in SS]
+        K = len(SS)
+        idx = [(i, j) for i in range(K) for j in range(K)]
+        counts = RS.Counts(rts, RS.indicator_weights(samples, SS))
+        ev = RS.Evaluator(counts, RS.sf_genetic_relatedness(n, idx, True), len(idx))
+        for sn in (True, False):
+            for w in (None, pts):
+                what = (f"genetic_relatedness_matrix({SS}, windows={w}, mode=branch, "
+                        f"span_normalise={sn})")
+                try:
+                    got = np.asarray(ts.genetic_relatedness_matrix(
+                        SS, windows=w, mode="branch", span_normalise=sn), dtype=float)
+                except Exception as e:  # noqa
+                    acc.ev(1, False)
+                    acc.fail("grm:exception", f"{what} raised {e!r}", case)
+                    continue
+                W = RS.parse_windows(rts, w)
+                e = ev.stat(W, "branch", True, sn).reshape((len(W) - 1, K, K))
+                if w is None:
+                    e = e[0]
+                msg, nt = mismatch(got, e)
+                acc.ev(1, nt)
+                if msg:
+                    acc.fail("grm:branch", f"{what}: {msg}", case)
     # ---- GNN
     refsets = [SS for SS in lists if len(SS) >= 1]
     extra = [[[u] for u in range(N)]]  # every node a reference (non-sample references allowed)
@@ -1253,42 +1304,49 @@ def _plan(tier):
         add("dist", dict(N=5, G=2, flags=_flags_first3), per=None, nsh=12)
     else:
         for n, g in ((2, 1), (2, 2), (2, 3), (3, 1), (3, 2), (3, 3)):
-            add("gen", dict(N=n, G=g, times="weak"), per=60, modes=["branch", "node"],
-                wlimit=12 if g == 3 else None)
-        add("gen", dict(N=4, G=1, times="weak"), per=60, modes=["branch", "node"])
-        add("gen", dict(N=4, G=2), per=60, modes=["branch", "node"])
-        add("gen", dict(N=5, G=1), per=60, modes=["branch", "node"])
-        add("gen", dict(N=3, G=2, times="weak", grid="frac", timescale="big"), per=60,
+            add("gen", dict(N=n, G=g, times="weak"), per=240 if g < 3 else 120,
+                modes=["branch", "node"], wlimit=12 if g == 3 else None)
+        add("gen", dict(N=4, G=1, times="weak"), per=1500, modes=["branch", "node"])
+        add("gen", dict(N=4, G=2), per=400, modes=["branch", "node"])
+        add("gen", dict(N=5, G=1), per=800, modes=["branch", "node"])
+        add("gen", dict(N=3, G=2, times="weak", grid="frac", timescale="big"), per=240,
             modes=["branch", "node"])
         add("gen", dict(N=2, G=2), "one2", per=1, modes=["site"])
-        add("gen", dict(N=3, G=1), "one2", per=1, modes=["site"])
-        add("gen", dict(N=3, G=2), "one2", per=1, modes=["site"])
-        add("gen", dict(N=3, G=2), "two1", per=1, modes=["site"])
-        add("gen", dict(N=4, G=1), "one2mid", per=1, modes=["site"])
-        add("gen", dict(N=3, G=1), "one3", per=1, modes=["site"])
-        add("gen", dict(N=3, G=3, flags="allsamples"), "one1", per=2, modes=["site"], wlimit=12)
-        add("named", dict(N=2, G=2), "one2", per=1, full=True)
-        add("named", dict(N=3, G=1), "one2", per=1, full=True)
-        add("named", dict(N=3, G=2), "mixed", per=2, full=True)
-        add("named", dict(N=4, G=1), "mixed", per=2, full=True)
-        add("named", dict(N=4, G=2, flags="allsamples"), "rich", per=6, full=True)
-        add("named", dict(N=4, G=2), "rich", per=24)
-        add("named", dict(N=5, G=1, flags="allsamples"), "rich", per=4, full=True)
-        add("sched", dict(N=3, G=3), "rich", per=12, maxk=4)
-        add("sched", dict(N=4, G=2, flags="allsamples"), "rich", per=12, maxk=4)
-        add("sched5", None, "rich", per=2, big=True)
-        add("ded", dict(N=3, G=1), "one2", per=1, full=True)
-        add("ded", dict(N=3, G=2), "mixed", per=4, full=True)
-        add("ded", dict(N=4, G=1), "mixed", per=4, full=True)
-        add("ded", dict(N=4, G=2), "rich", per=40)
-        add("ded", dict(N=3, G=3, times="weak", flags="allsamples"), "rich", per=40)
-        add("ded", dict(N=3, G=2, times="weak"), "two1", per=40, ld_only=True)
-        add("ded", dict(N=4, G=1, times="weak"), "two1", per=40, ld_only=True)
-        add("ded", dict(N=4, G=2, flags="allsamples"), "two1", per=20, ld_only=True)
-        add("dist", dict(N=4, G=1, times="weak"), per=None, nsh=4)
-        add("dist", dict(N=5, G=1), per=None, nsh=6)
-        add("dist", dict(N=5, G=2, flags=_flags_first3), per=None, nsh=40)
-        add("dist", dict(N=5, G=2, flags=_flags_int), per=None, nsh=40)
+        add("gen", dict(N=3, G=1), "one2", per=6, modes=["site"])
+        add("gen", dict(N=3, G=2), "one2", per=2, modes=["site"])
+        add("gen", dict(N=3, G=2), "two1", per=8, modes=["site"])
+        add("gen", dict(N=4, G=1), "one2mid", per=6, modes=["site"])
+        add("gen", dict(N=3, G=1), "one3", per=2, modes=["site"])
+        add("gen", dict(N=3, G=3, flags="allsamples"), "one1", per=4, modes=["site"], wlimit=12)
+        add("named", dict(N=2, G=2), "one2", per=1, full=True, modes=["site"])
+        add("named", dict(N=2, G=2), "rich", per=2, full=True)
+        add("named", dict(N=3, G=1), "mixed", per=2, full=True, modes=["site"])
+        add("named", dict(N=3, G=1), "rich", per=8, full=True)
+        add("named", dict(N=3, G=2, flags="allsamples"), "mixed", per=1, full=True, modes=["site"])
+        add("named", dict(N=3, G=2), "rich", per=8, full=True)
+        add("named", dict(N=4, G=1, flags="allsamples"), "mixed", per=1, modes=["site"])
+        add("named", dict(N=4, G=1), "rich", per=6, full=True)
+        add("named", dict(N=4, G=2, flags="allsamples"), "rich", per=12)
+        add("named", dict(N=3, G=3, flags="allsamples"), "rich", per=8)
+        add("named", dict(N=5, G=1, flags="allsamples"), "rich", per=4)
+        add("sched", dict(N=3, G=3), "rich", per=36, maxk=4)
+        add("sched", dict(N=4, G=2, flags="allsamples"), "rich", per=24, maxk=4)
+        add("sched5", None, "rich", per=8, big=True)
+        add("ded", dict(N=3, G=1), "one2", per=4, full=True, site_only=True)
+        add("ded", dict(N=3, G=1), "rich", per=12, full=True)
+        add("ded", dict(N=3, G=2), "mixed", per=4, full=True, site_only=True)
+        add("ded", dict(N=3, G=2), "rich", per=8, full=True)
+        add("ded", dict(N=4, G=1), "mixed", per=8, full=True, site_only=True)
+        add("ded", dict(N=4, G=1), "rich", per=20, full=True)
+        add("ded", dict(N=4, G=2), "rich", per=120)
+        add("ded", dict(N=3, G=3, times="weak", flags="allsamples"), "rich", per=60)
+        add("ded", dict(N=3, G=2, times="weak"), "two1", per=240, ld_only=True)
+        add("ded", dict(N=4, G=1, times="weak"), "two1", per=1500, ld_only=True)
+        add("ded", dict(N=4, G=2, flags="allsamples"), "two1", per=100, ld_only=True)
+        add("dist", dict(N=4, G=1, times="weak"), per=None, nsh=8)
+        add("dist", dict(N=5, G=1), per=None, nsh=2)
+        add("dist", dict(N=5, G=2, flags=_flags_first3), per=None, nsh=8)
+        add("dist", dict(N=5, G=2, flags=_flags_int), per=None, nsh=8)
     return P
 
 
